@@ -937,7 +937,12 @@ class C14:
         if k == "dist":
             d = c["d"]
             if not dist_ok(d):
-                return None if obs.get("err") == "TypeError" else f"non-numeric parameter not rejected with TypeError: {_short(obs)}"
+                if obs.get("err") == "TypeError":
+                    return None
+                if "ok" in obs:
+                    return (f"non-numeric parameter accepted by the constructor (no TypeError): {json.dumps(d)} "
+                            f"built with {pyv(d.get('v', d.get('lo')))!r}; value() then gave {_short(obs['ok'])}")
+                return f"non-numeric parameter not rejected with TypeError: {_short(obs)}"
             lo, hi = bounds(d)
             if hi < lo:
                 return None if obs.get("err") == "ValueError" else f"max<min not rejected with ValueError: {_short(obs)}"
@@ -1096,6 +1101,11 @@ class C14:
                 "max_offdiag_of_exact_nulled_matrix": maxoff, "cases_with_error_outcome": errs}
 
     def signature(self, c, rec):
+        # Constant([0.5]) / Constant((0.5,)) / Constant([]) is accepted: dists/utils.is_number treats a
+        # list/tuple argument as "several values to check"; the object then returns the sequence from value()
+        if c["kind"] == "dist" and c["d"]["t"] == "const" and isinstance(c["d"]["v"], dict) \
+                and c["d"]["v"].get("bad") == "list" and isinstance(rec.get("impl"), dict) and "ok" in rec["impl"]:
+            return "constant-accepts-sequence"
         return None
 
     def shrink(self, c):
